@@ -67,6 +67,8 @@ class RelativeJumpOpcode(OpcodeWithoutOperand):
     ) -> bytes:
         if value_node is None:
             raise RuntimeError("Nope.")
+        if size in ("w", "l"):
+            raise RuntimeError(f"A relative branch takes a one byte displacement, there is no .{size} form.")
         value = value_node.get_value()
         from a816.parse.nodes import ExpressionNode
 
